@@ -442,19 +442,38 @@ def fle(a, b):
     return z3.Or(flt(a, b), feq(a, b))
 
 
+# The result of arithmetic on a value with a non-zero imaginary part MAY be real again (imaginary parts cancel: (i)^2 = -1,
+# z + conj(z), exp(i pi), |z|): its `cplx` flag is an uninterpreted function of the operation and the operands, not `true`.
+MAYC2 = z3.Function("maybe.complex2", z3.IntSort(), z3.RealSort(), z3.RealSort(), z3.BoolSort())
+MAYC1 = z3.Function("maybe.complex1", z3.IntSort(), z3.RealSort(), z3.BoolSort())
+
+
+def _c2(op, a, b):
+    if z3.is_false(a.cplx) and z3.is_false(b.cplx):
+        return z3.BoolVal(False)
+    return z3.And(z3.Or(a.cplx, b.cplx), MAYC2(z3.IntVal(op), a.val, b.val))
+
+
+def _c1(op, a):
+    if z3.is_false(a.cplx):
+        return z3.BoolVal(False)
+    return z3.And(a.cplx, MAYC1(z3.IntVal(op), a.val))
+
+
 def fneg(a):
     return VFloat(-a.val, a.nan, a.inf, z3.Not(a.pos), a.cplx)
 
 
 def fabs(a):
-    return VFloat(z3.If(a.val < 0, -a.val, a.val), a.nan, a.inf, z3.BoolVal(True), a.cplx)
+    # |z| is real for every complex z
+    return VFloat(z3.If(a.val < 0, -a.val, a.val), a.nan, a.inf, z3.BoolVal(True), z3.BoolVal(False))
 
 
 def fadd(a, b):
     nan = z3.Or(a.nan, b.nan, z3.And(a.inf, b.inf, a.pos != b.pos))
     inf = z3.Or(a.inf, b.inf)
     pos = z3.If(a.inf, a.pos, b.pos)
-    return VFloat(a.val + b.val, nan, inf, pos, z3.Or(a.cplx, b.cplx))
+    return VFloat(a.val + b.val, nan, inf, pos, _c2(1, a, b))
 
 
 def fsub(a, b):
@@ -474,7 +493,7 @@ def fmul(a, b):
     nan = z3.Or(a.nan, b.nan, z3.And(a.inf, _is_zero(b)), z3.And(b.inf, _is_zero(a)))
     inf = z3.Or(a.inf, b.inf)
     pos = _sign_pos(a) == _sign_pos(b)
-    return VFloat(a.val * b.val, nan, inf, pos, z3.Or(a.cplx, b.cplx))
+    return VFloat(a.val * b.val, nan, inf, pos, _c2(2, a, b))
 
 
 def fdiv(a, b):
@@ -485,7 +504,7 @@ def fdiv(a, b):
     inf = z3.Or(z3.And(a.inf, z3.Not(b.inf)), z3.And(bz, z3.Not(_is_zero(a))))
     pos = z3.If(bz, _sign_pos(a), _sign_pos(a) == _sign_pos(b))
     val = z3.If(z3.Or(b.inf, bz), z3.RealVal(0), a.val / z3.If(bz, z3.RealVal(1), b.val))
-    return VFloat(val, nan, inf, pos, z3.Or(a.cplx, b.cplx))
+    return VFloat(val, nan, inf, pos, _c2(3, a, b))
 
 
 LN = z3.Function("ln", z3.RealSort(), z3.RealSort())          # natural log on positive reals
@@ -500,7 +519,7 @@ def flog(a):
     nan = z3.Or(a.nan, z3.And(a.inf, z3.Not(a.pos)), z3.And(z3.Not(a.inf), a.val < 0))
     inf = z3.Or(z3.And(a.inf, a.pos), _is_zero(a))
     pos = a.inf
-    return VFloat(LN(a.val), nan, inf, pos, a.cplx)
+    return VFloat(LN(a.val), nan, inf, pos, _c1(4, a))
 
 
 def fsqrt(a):
@@ -510,7 +529,7 @@ def fsqrt(a):
 
 def fexp(a):
     val = z3.If(z3.And(a.inf, z3.Not(a.pos)), z3.RealVal(0), EXP(a.val))
-    return VFloat(val, a.nan, z3.And(a.inf, a.pos), z3.BoolVal(True), a.cplx)
+    return VFloat(val, a.nan, z3.And(a.inf, a.pos), z3.BoolVal(True), _c1(5, a))
 
 
 def fsquare(a):
